@@ -13,7 +13,47 @@ func copySimple(id string) func(prog *Program, repo, tier string) ([]simpleOblig
 	}
 }
 
+var engineBAssumptions = []string{
+	"Engine B executes the go/ssa form of the function under contract; polynomials are elements of an abstract commutative ring (ghost val/mexp/domain), so an ensures clause is a polynomial identity over the integers that then holds in Z_Q[X]/(X^N+1)",
+	"arithmetic leaves (ring.Ring methods, samplers, Poly.Copy/Resize, ExtendBasisSmallNormAndCenter) carry ASSUMED abstract contracts: the ring-element reading of the coefficient-level contracts of property C01/C02 (link: CRT, row-wise congruence on every modulus = equality in the ring)",
+	"module functions called without a contract are executed inline (transparent accessors such as Level(), Degree(), RingQ(), AtLevel()); calls leaving the module are assumed not to touch polynomial storage",
+	"distinct access paths from the inputs denote distinct storage unless the contract declares an alias (case ... ; alias / set)",
+	"machine integers above the ring layer (levels, degrees) are mathematical; loops are unwound to the contract's bound with an unwinding obligation",
+	"symbolic pointers inside inputs are non-nil unless the contract sets them nil (e.g. parameter sets without auxiliary modulus P are covered only where a case says so)",
+	"NOT decided: noise magnitude, statistical quality of the samples, anything about serialization",
+}
+
 var propertyConfigs = map[string]*propertyConfig{
+	"C03": {
+		ID: "C03", Packages: []string{"./..."}, Level: "proof",
+		Explain: "Abstract contracts (afunc blocks in core/rlwe/zz_contracts_verif.go) on secret-key encryption of zero (both the Q and the QP variant, every NTT flag and degree case), its dispatcher for *Ciphertext, public-key encryption without P, and Decrypt (degree 1 and 2): " +
+			"c0 + c1*s equals exactly one fresh draw of the declared error distribution, public-key encryption adds two distinct error draws and one secret draw, decryption computes c0 + c1*s (+ c2*s^2) and copies the metadata.",
+		Assumptions: engineBAssumptions, Trusted: stdTrusted,
+	},
+	"C14": {
+		ID: "C14", Packages: []string{"./..."}, Level: "proof",
+		Explain: "Abstract contracts on the collective public-key protocol: GenShare = e_i - s_i*crp with one fresh error draw, in NTT/Montgomery form on Q and P; AggregateShares = +; GenPublicKey = (aggregate, crp). " +
+			"Lemma over the contracts (stated): aggregation being + in a commutative ring, the key is (sum e_i - (sum s_i)*crp, crp) for every order and grouping.",
+		Assumptions: engineBAssumptions, Trusted: stdTrusted,
+	},
+	"C16": {
+		ID: "C16", Packages: []string{"./..."}, Level: "proof",
+		Explain: "Abstract contracts on collective key switching to a secret-shared key: GenShare = c1*(s_in - s_out) + one fresh draw of the smudging distribution; AggregateShares = + (error on level mismatch); KeySwitch = (c0 + sum shares, c1); " +
+			"plus the copy contracts that keep the smudging sampler bound to the stored noise distribution in ShallowCopy.",
+		Assumptions: append(append([]string{}, engineBAssumptions...), "NOT decided: public-key switching, encryption-to-shares, refresh and masked transform (encoder semantics / float bounds)"),
+		Trusted: stdTrusted, Simple: copySimple("C16"),
+	},
+	"C19": {
+		ID: "C19", Packages: []string{"./core/rlwe/...", "./ring/..."}, Level: "proof",
+		Explain: "Acceptance-soundness bridge: rlwe.CheckModuli / checkSizeParams / checkModuliLogSize are under contract; their postconditions say that an accepted moduli chain satisfies the precondition under which the ring kernels and the lazy NTT schedule were verified " +
+			"(every Q modulus < 2^61 and prime, every P modulus < 2^62 and prime, 4 <= logN <= 20, requested sizes in ]0,60] / ]0,61]).  NewParameters calls CheckModuli and returns its error (by inspection; the constructor itself is outside the subset).",
+		Assumptions: []string{
+			"primality oracle ring.IsPrime = math/big.ProbablyPrime(0), exact below 2^64 (assumed contract)",
+			"P moduli in [2^61, 2^62) are accepted on purpose (LogP = 61 requests generate primes just above 2^61 and shipped bootstrapping sets use them): for those the lazy NTT bound 8p < 2^64 is NOT implied; no failing input is known (DESIGN.md, findings F1b)",
+			"NOT decided: prime generation from bit sizes (float log2 window), plaintext-modulus checks of bgv.NewParameters, the 128-bit security table, JSON round trip",
+		},
+		Trusted: stdTrusted,
+	},
 	"C10": {
 		ID:       "C10",
 		Packages: []string{"./..."},
